@@ -212,6 +212,25 @@ def matrix_task(item):
                 break
     except Exception as ex:
         out['viols'].append(('matrix-second-call-raised', {'cfg': cfgname, 'history': h, 'exc': repr(ex)[:200]}))
+    # square assembly (N == M, at least 100 entries, serial path) with DIFFERENT test and trial lists
+    K = max(10, N)
+    Tq = (elems * (K // N + 1))[:K]
+    Sq = Tq[::-1]
+    try:
+        Bq = SL.bilform_matrix(Tq, Sq)
+        done = False
+        for i, te in enumerate(Tq):
+            for j, tr in enumerate(Sq):
+                out['n'] += 1
+                if Bq[i, j] != SL.bilform(tr, te):
+                    out['viols'].append(('matrix-square-different-lists', {'cfg': cfgname, 'history': h, 'i': i, 'j': j, 'path': 'serial',
+                                                                           'value': float(Bq[i, j]), 'single': float(SL.bilform(tr, te))}))
+                    done = True
+                    break
+            if done:
+                break
+    except Exception as ex:
+        out['viols'].append(('matrix-square-raised', {'cfg': cfgname, 'history': h, 'exc': repr(ex)[:200]}))
     # process-pool path (fork-faithful virtual pool, two schedules: one worker; three workers round robin)
     from mc import vpool
     ctl = vpool.install()
